@@ -223,9 +223,7 @@ pub fn project_state(inv: &Inverse, state: &WarpState) -> Result<StateJ, String>
         }
         let mut e_att = 0usize;
         for (from, edges) in store.iter_edges() {
-            if edges.is_empty() {
-                return Err(format!("empty edges_from bucket in {w}"));
-            }
+            // an empty bucket is storage layout, not content: tolerated here, judged by the hashes
             for e in edges {
                 if e.from != *from {
                     return Err("edge.from differs from its bucket".into());
